@@ -1,6 +1,7 @@
 package world
 
 import (
+	"sort"
 	"math/rand/v2"
 )
 
@@ -255,4 +256,19 @@ func (g *gen) genCore(profile string) {
 			}
 		}
 	}
+}
+
+// plansInOrder returns the handler plans of an op in server order. The generators draw from
+// the PRNG while they walk over the plans, so the walk must not follow Go's map order.
+func plansInOrder(m map[int]*HandlerPlan) []*HandlerPlan {
+	keys := make([]int, 0, len(m))
+	for k := range m {
+		keys = append(keys, k)
+	}
+	sort.Ints(keys)
+	out := make([]*HandlerPlan, 0, len(m))
+	for _, k := range keys {
+		out = append(out, m[k])
+	}
+	return out
 }
